@@ -3518,6 +3518,15 @@ func (m *Machine) Export() (*Serialized, Schema, error) {
 // into a machine which has already produces transitions and/or
 // has telemetry connected (use [Machine.SetSchema] instead).
 func (m *Machine) Import(data *Serialized) error {
+	// trigger MachineRestored, if defined (a mutation, so only once the locks
+	// below have been released)
+	restored := false
+	defer func() {
+		if restored {
+			m.Add1(StateMachineRestored, nil)
+		}
+	}()
+
 	m.activeStatesMx.RLock()
 	defer m.activeStatesMx.RUnlock()
 	m.queueMx.RLock()
@@ -3556,10 +3565,7 @@ func (m *Machine) Import(data *Serialized) error {
 	m.statesVerified.Store(true)
 	m.machineTick = data.MachineTick + 1
 
-	// trigger MachineRestored, if defined
-	if m.Has1(StateMachineRestored) {
-		m.Add1(StateMachineRestored, nil)
-	}
+	_, restored = m.schema[StateMachineRestored]
 	m.log(LogChanges, "[import] imported %d times, now at %d ticks",
 		m.machineTick, sum)
 
